@@ -196,6 +196,10 @@ impl Prop for C15 {
         run_proptest("decode_random", strat, cases, seed, 2000, stats, |d: &Vec<u8>| guarded("C15", || decode_total(d)))
     }
     fn replay(&self, unit: &str, case: &Value) -> Outcome {
+        if unit == "fuzz" {
+            let d: Vec<u8> = serde_json::from_value(case.clone()).unwrap_or_default();
+            return run_fuzz(&d);
+        }
         if unit.contains("roundtrip") {
             let (i, g, p, s) = if case.is_array() {
                 let t: (u32, u32, Vec<u8>, Vec<u8>) = serde_json::from_value(case.clone()).unwrap_or_default();
@@ -228,4 +232,21 @@ impl Prop for C15 {
     fn shard_cases(&self) -> u32 {
         25_000
     }
+}
+
+/// libFuzzer entry (thorough tier): totality on the raw input, plus a round trip of the identifier taken from its first 8 bytes.
+pub fn run_fuzz(data: &[u8]) -> Outcome {
+    guarded("C15", || {
+        let out = decode_total(data);
+        if out.fail.is_some() {
+            return out;
+        }
+        if data.len() >= 8 {
+            let index = u32::from_le_bytes([data[0], data[1], data[2], data[3]]);
+            let generation = u32::from_le_bytes([data[4], data[5], data[6], data[7]]);
+            let cut = 8 + (data.len() - 8) / 2;
+            return roundtrip(index, generation, &data[8..cut], &data[cut..]);
+        }
+        out
+    })
 }
